@@ -749,6 +749,32 @@ class Lookup(Monitor):
                     world.violate(P, P + ".time_lookup_nearest", "system[%r] returned t=%r, nearest recorded sample is t[%d]=%r (grid %s)"
                                   % (_f(q), _f(got.t), k0, _f(t[k0]), "increasing" if t[0] < t[-1] else "decreasing"))
                     break
+        if dense and n >= 2 and not world.scn["system"]["method"].startswith("Rich:") and not any(fr["fault"]["kind"] == "spike" for fr in world.fired):
+            # "returns the dense solution there": at a recorded time that is the recorded state (to rounding), for a scalar time and for an
+            # array of times alike - checked against the rows, not against sol (which the lookup itself goes through)
+            ks = sorted(set([0, 1, n // 2, n - 2, n - 1] + list(range(0, n, max(1, n // 8)))))
+            f_ = world.f_math
+            smax = max(float(np.max(np.abs(np.asarray(f_(t[k_], y[k_]), dtype=np.float64)))) for k_ in ks)
+            ymax_ = float(np.max(np.abs(y)))
+            tmax_ = max(1.0, float(np.max(np.abs(np.asarray(t, dtype=np.float64)))))
+            bnd = 64 * eps_of(dtype) * (ymax_ + tmax_ * smax + 1e-300)
+            try:
+                arr_res = sysm[np.asarray([t[k_] for k_ in ks], dtype=dtype)]
+                arr_y = np.asarray(arr_res.y)
+            except Exception as e:
+                arr_y = None
+                world.violate(P, P + ".time_lookup", "lookup with an array of %d recorded times raised %s: %s" % (len(ks), type(e).__name__, str(e)[:80]))
+            for pos, k_ in enumerate(ks):
+                got1 = np.asarray(sysm[t[k_]].y)
+                e1 = float(np.max(np.abs(np.asarray(got1 - y[k_], dtype=np.float64))))
+                if e1 > bnd:
+                    world.violate(P, P + ".time_lookup_dense", "system[t[%d]=%r].y differs from the recorded state by %.3e (> %.3e)" % (k_, _f(t[k_]), e1, bnd))
+                    break
+                if arr_y is not None and arr_y.shape[0] == len(ks):
+                    e2 = float(np.max(np.abs(np.asarray(arr_y[pos] - y[k_], dtype=np.float64))))
+                    if e2 > bnd:
+                        world.violate(P, P + ".time_lookup_dense", "system[array of times][%d] (t=%r) differs from the recorded state by %.3e (> %.3e)" % (pos, _f(t[k_]), e2, bnd))
+                        break
         # slices spanning the whole run, end points in either order
         for (a, b) in ((t[0], t[-1]),):        # from the start to the end of the run, in the order of integration
             try:
